@@ -142,7 +142,7 @@ func runSeq(kind string, seq []op) (err string) {
 }
 
 func TestExhaustiveSequences(t *testing.T) {
-	maxLen := lib.Pick(8, 9)
+	maxLen := lib.Pick(8, 10)
 	only := lib.OnlyCase()
 	done := make(chan struct{})
 	var total, nontriv int64
